@@ -109,12 +109,13 @@ impl<'a> TemporalIndexBuilder<'a> {
 
                 let min_ts = *ts_vals.iter().min().unwrap_or(&0);
                 let max_ts = *ts_vals.iter().max().unwrap_or(&0);
-                if min_ts >= 0 && max_ts >= 0 {
-                    let entry = calendars
-                        .entry(field.clone())
-                        .or_insert_with(|| TemporalCalendarIndex::new(field.clone()));
-                    entry.add_zone_range(zp.id, min_ts as u64, max_ts as u64);
-                }
+                // Values before 1970 are legal for datetime/date fields: register the zone with
+                // its range clamped at 0 (the pruner clamps its calendar lookup the same way and
+                // then checks the exact signed range in the zone temporal index).
+                let entry = calendars
+                    .entry(field.clone())
+                    .or_insert_with(|| TemporalCalendarIndex::new(field.clone()));
+                entry.add_zone_range(zp.id, min_ts.max(0) as u64, max_ts.max(0) as u64);
             }
         }
 
